@@ -172,3 +172,32 @@ def spec_rng():
 
 def uf(name, *args):
     raise RuntimeError("uf() is symbolic-only")
+
+
+import io as _io
+
+
+class MemStream(_io.BytesIO):
+    """native counterpart of the engine's memstream(): records each write() call"""
+
+    def __init__(self):
+        super().__init__()
+        self._writes = []
+
+    def write(self, b):
+        self._writes.append(bytes(b))
+        return super().write(b)
+
+    def nwrites(self):
+        return len(self._writes)
+
+    def written(self, k):
+        return self._writes[k]
+
+
+def memstream():
+    return MemStream()
+
+
+def blob(n):
+    return bytes(n)
